@@ -76,6 +76,15 @@ Fixpoint accum (t : table) (own : nat -> list gfld) (fuel : nat) (j : nat) : lis
            end
   end.
 
+(* the three lists of _reorder_parameters (the model has no positional-only parameters: dataclasses generates none) *)
+Inductive pgroup := GPosOnly | GPosKw | GKwOnly.
+Definition group_filter (g : pgroup) (l : list param) : list param :=
+  match g with GPosOnly => [] | GPosKw => filter is_pk l | GKwOnly => filter is_ko l end.
+
+(* GriffeLoader._post_load and the class branch of _apply_recursively as sequences of steps (translated from the source) *)
+Inductive pl_step := PExports | PWildcards | PEvent.
+Inductive cl_step := CLabel | CGuard | CInit | CPrune | CNested.
+
 Definition partition_params (l : list param) : list param := filter is_pk l ++ filter is_ko l.
 
 (* the parameters after self of the synthesised __init__ of class i *)
